@@ -404,7 +404,19 @@ func checkModelWith(solver *Solver, e *Engine, fresh map[*Term]bool, prefs map[*
 			// subset of them costs ~25 queries per round) and with the sharper instance axioms
 			lemmas = append(lemmas, pureAxiomInstances(q)...)
 		}
-		r, mod = checkModelStage(solver, e, fresh, prefs, append(append([]*Term{}, q...), lemmas...), true, true)
+		full := append(append([]*Term{}, q...), lemmas...)
+		// candidate witnesses: values on which library functions typically differ, one per atom that
+		// flows into an uninterpreted library function (tried first; dropped when inconsistent)
+		tried := false
+		for _, c := range trickyCandidates(q, round) {
+			if r2, mod2 := checkModelStage(solver, e, fresh, prefs, append(append([]*Term{}, full...), c), true, true); r2 == Sat && mod2 != nil {
+				r, mod, tried = r2, mod2, true
+				break
+			}
+		}
+		if !tried {
+			r, mod = checkModelStage(solver, e, fresh, prefs, full, true, true)
+		}
 	}
 	return r, mod
 }
